@@ -15,7 +15,11 @@ RULE = ('FFT cases: every shape in {1..9}^2 (all parity pairs, square and not) p
         'complex (70%) / real input, float64 (85%) / float32 configuration: energy of focus/unfocus/pad2d, unfocus(focus)=id, '
         'focus(unfocus)=id, unfocus(focus(f,Q),1)=pad2d(f,Q), Wavefront.focus (given and DEFAULT Q) / unfocus incl. space and dx '
         'round trip; band-complete cases: (m,Qy) and (n,Qx) drawn from all pairs with m*Q integer, '
-        'Q in {1,1.5,2,2.5,3,4/3,5/3,1.25}, shifts from {0,+-1,+-2.5,(1.5,-2.25)}: energy and idft2(dft2)=id / iczt2(czt2)=id; '
+        'Q in {1,1.5,2,2.5,3,4/3,5/3,1.25}, shifts from {0,+-1,+-2.5,(1.5,-2.25)}, input dtype from {complex128, float64, complex64, '
+        'float32, int64, bool}, memory layouts C/F/transposed/strided/negative-stride/read-only, arguments as tuple/list/ndarray/'
+        'generator/one-shot iterator/NumPy scalars: energy of the forward AND of the inverse transform of the caller\'s array, '
+        'idft2(dft2 f)=f and dft2(idft2 f)=f (same for czt2/iczt2), iczt2(f)=idft2(f), the same round trips through '
+        'focus_fixed_sampling/unfocus_fixed_sampling when M=N, input array unmodified; a near-symmetric block; '
         'free-space cases: shapes as above, wavelength in [0.4,2] um (= lambda/1000 mm), dx (mm) log-uniform within one of four '
         'regimes relative to the wavelength: sub-wavelength lambda/40..lambda/2 (30%, the sampled band reaches beyond 1/lambda), '
         'lambda/2..4 lambda (15%), ordinary 0.01..1 mm (40%), coarse 1..200 mm (15%); z of both signs, zero (12%), well conditioned '
@@ -109,8 +113,21 @@ def driver(lines):
     return out
 
 
-def make_input(shape, dtype, seed):
-    return H1.make_input(tuple(shape), dtype, seed)
+def make_input(shape, dtype, seed, layout=None):
+    return H1.make_input(tuple(shape), dtype, seed, layout)
+
+
+DTYPE_FAMILY = ['complex128', 'float64', 'complex64', 'float32', 'int64', 'bool']
+
+
+def gen_dtype(r, p=(0.4, 0.25, 0.1, 0.1, 0.08, 0.07)):
+    """every dtype family at every entry point: complex AND real (float64/float32/int/bool) fields"""
+    return DTYPE_FAMILY[int(r.choice(6, p=list(p)))]
+
+
+def unchanged(f, c):
+    """the implementation must not write to the caller's array"""
+    return np.array_equal(f, H1.make_input(tuple(c['shape']), c['dtype'], c['seed']))
 
 
 # ------------------------------------------------------------------------------------------------
@@ -120,7 +137,7 @@ def pred_fft(c, verbose=False):
     """focus / unfocus: energy with padding, mutual inverse; pad2d energy"""
     ft, pr, config = _impl()
     et, at = tols(c)
-    f = make_input(c['shape'], c['dtype'], c['seed'])
+    f = make_input(c['shape'], c['dtype'], c['seed'], c.get('layout'))
     config.precision = c.get('precision', 64)
     try:
         Q = c['Q']
@@ -138,6 +155,8 @@ def pred_fft(c, verbose=False):
                 print(f'  energy({nm}(f, Q={Q})) / energy(f) - 1 = {energy(a) / E0 - 1:.3g}')
             if not ok:
                 return False, f'{nm} changes the energy by a factor {energy(a) / E0:.12g} (shape {c["shape"]}, Q={Q})', {}
+        if not unchanged(f, c):
+            return False, 'focus / unfocus / pad2d modified the input array in place', {}
         back = pr.unfocus(pr.focus(f, 1), 1)
         ok, err = close(back, f, at)
         if verbose:
@@ -181,34 +200,74 @@ def pred_fft(c, verbose=False):
 
 
 def pred_band(c, verbose=False):
-    """dft2/idft2 and czt2/iczt2 onto the full band and back"""
+    """dft2/idft2 and czt2/iczt2 onto the full band and back, IN BOTH ORDERS (forward then inverse, and inverse then forward: the
+    second hands the caller's own - possibly real-dtype - array to the inverse transform), the two engines against each other on
+    the same array, and the same two round trips through focus_fixed_sampling / unfocus_fixed_sampling"""
     ft, pr, config = _impl()
     et, at = tols(c)
     m, n = c['shape']
     M, N = c['samples']
     Q = (c['Q'][0], c['Q'][1])
     shift = tuple(c['shift'])
-    f = make_input((m, n), c['dtype'], c['seed'])
+    forms = c.get('forms')
+    f = make_input((m, n), c['dtype'], c['seed'], c.get('layout'))
     config.precision = c.get('precision', 64)
+
+    def call(fn, a, q, mn, sh):
+        q, mn, sh = H1.apply_forms(q, mn, sh, forms)
+        return fn(a, q, mn, sh)
     try:
         res = {}
         for meth, fwd, inv in (('mdft', ft.mdft.dft2, ft.mdft.idft2), ('czt', ft.czt.czt2, ft.czt.iczt2)):
             try:
-                F = fwd(f, Q, (M, N), shift)
-                back = inv(F, 1, (m, n), shift)
+                F = call(fwd, f, Q, (M, N), shift)
+                back = call(inv, F, (1, 1), (m, n), shift)
+                G = call(inv, f, Q, (M, N), shift)              # the inverse transform of the caller's own array
+                back2 = call(fwd, G, (1, 1), (m, n), shift)
             except Exception as ex:
                 return False, f'{meth} raised {type(ex).__name__}: {str(ex)[:160]}', {}
-            ok, rel = eclose(energy(F), energy(f), et)
+            if not unchanged(f, c):
+                return False, f'{meth} modified the input array in place', {}
             if verbose:
-                print(f'  {meth}: energy ratio - 1 = {energy(F) / energy(f) - 1:.3g}; max |inverse(forward(f)) - f| = '
-                      f'{float(np.abs(back - f).max()):.3g}')
-            if not ok:
-                return False, f'{meth}: forward transform onto the full band changes the energy by {energy(F) / energy(f):.12g}', {}
+                print(f'  {meth}: energy ratio - 1 = {energy(F) / energy(f) - 1:.3g} (forward), {energy(G) / energy(f) - 1:.3g} (inverse); '
+                      f'max |inverse(forward(f)) - f| = {float(np.abs(back - f).max()):.3g}; '
+                      f'max |forward(inverse(f)) - f| = {float(np.abs(back2 - f).max()):.3g}')
+            for nm, X in (('forward', F), ('inverse', G)):
+                ok, rel = eclose(energy(X), energy(f), et)
+                if not ok:
+                    return False, f'{meth}: {nm} transform onto the full band changes the energy by {energy(X) / energy(f):.12g}', {}
             ok, err = close(back, f, at)
             if not ok:
                 return False, f'{meth}: inverse(forward(f)) != f on the band-complete grid: max err {err:.3g}', {}
-            res[meth] = (F, back)
-        return True, '', res
+            ok, err = close(back2, f, at)
+            if not ok:
+                return False, (f'{meth}: forward(inverse(f)) != f on the band-complete grid ({c["dtype"]} input handed to the '
+                               f'inverse transform): max err {err:.3g}'), {}
+            res[meth] = (F, back, G)
+        # the inverse of the SAME array by the two engines (model: iczt2 == idft2 sample for sample)
+        ok, err = close(res['czt'][2], res['mdft'][2], at)
+        if not ok:
+            return False, f'iczt2(f) != idft2(f) for the same {c["dtype"]} array: max err {err:.3g}', {}
+        # the same round trips through the fixed-sampling entry points.  One output spacing serves both axes, and the full band
+        # has lambda f/(dx_in dx_out) samples on EITHER axis, so this applies when M == N (any m, n <= M)
+        if M == N:
+            dx_in, efl, wvl = 0.731, 123.4, 0.55
+            dx_out = wvl * efl / (dx_in * M)
+            sh_out = (shift[0] * dx_out, shift[1] * dx_out)
+            sh_in = (shift[0] * dx_in, shift[1] * dx_in)
+            for method in ('mdft', 'czt'):
+                try:
+                    U = pr.unfocus_fixed_sampling(f, dx_in, efl, wvl, dx_out, (M, N), shift=sh_out, method=method)
+                    b3 = pr.focus_fixed_sampling(U, dx_out, efl, wvl, dx_in, (m, n), shift=sh_in, method=method)
+                    V = pr.focus_fixed_sampling(f, dx_in, efl, wvl, dx_out, (M, N), shift=sh_out, method=method)
+                    b4 = pr.unfocus_fixed_sampling(V, dx_out, efl, wvl, dx_in, (m, n), shift=sh_in, method=method)
+                except Exception as ex:
+                    return False, f'fixed-sampling round trip ({method}) raised {type(ex).__name__}: {str(ex)[:140]}', {}
+                for nm, x in (('focus_fixed_sampling(unfocus_fixed_sampling(f))', b3), ('unfocus_fixed_sampling(focus_fixed_sampling(f))', b4)):
+                    ok, err = close(x, f, at)
+                    if not ok:
+                        return False, f'{nm} != f with method={method!r} on the band-complete grid: max err {err:.3g}', {}
+        return True, '', {k: v[:2] for k, v in res.items()}
     finally:
         config.precision = 64
 
@@ -248,7 +307,7 @@ def pred_asp(c, verbose=False):
     """free space.  extras['known'] counts literal checks skipped because they are exactly the known finding"""
     ft, pr, config = _impl()
     et, at = tols(c)
-    f = make_input(c['shape'], c['dtype'], c['seed'])
+    f = make_input(c['shape'], c['dtype'], c['seed'], c.get('layout'))
     wvl, dx, z, z2, Q = c['wvl'], c['dx'], c['z'], c['z2'], c['Q']
     Qn = 2 if Q == 'default' else Q
     known = 0
@@ -277,6 +336,8 @@ def pred_asp(c, verbose=False):
             return False, f'raised {type(ex).__name__}: {str(ex)[:160]}', {}
         if tf.shape != tuple(shp):
             return False, f'transfer function has shape {tf.shape}, field {tuple(shp)}', {}
+        if not unchanged(f, c) or (Qn == 1 and not np.array_equal(g, f)):
+            return False, 'angular_spectrum modified the input field in place', {}
         # |H| == 1 at EVERY frequency sample (exp of a purely imaginary number: exact to an ulp whatever the phase)
         um = float(np.abs(np.abs(tf) - 1).max())
         eps = 1.2e-7 if et == ETOL32 else 2.3e-16
@@ -342,15 +403,18 @@ def band_pairs(maxn=9, maxM=24):
 
 def gen_fft(r, shape, big=False):
     return {'shape': list(shape), 'Q': [1, 2, 3, 1.5, 2.37, 1.2][int(r.integers(6))] if not big else [1, 2, 1.5][int(r.integers(3))],
-            'dtype': 'complex128' if r.random() < 0.7 else 'float64', 'precision': 32 if r.random() < 0.15 else 64,
+            'dtype': gen_dtype(r), 'precision': 32 if r.random() < 0.15 else 64, 'layout': H1.gen_layout(r),
             'seed': int(r.integers(1 << 30))}
 
 
 def gen_band(r, pairs):
     (m, Qy, M), (n, Qx, N) = pairs[int(r.integers(len(pairs)))], pairs[int(r.integers(len(pairs)))]
+    if r.random() < 0.35:          # same full-band sample count on both axes: the fixed-sampling round trips apply
+        same = [p for p in pairs if p[2] == M]
+        (n, Qx, N) = same[int(r.integers(len(same)))]
     return {'shape': [m, n], 'Q': [Qy, Qx], 'samples': [M, N], 'shift': list(H1.SHIFTS[int(r.integers(len(H1.SHIFTS)))]),
-            'dtype': ['complex128', 'float64', 'complex64'][int(r.choice(3, p=[0.6, 0.25, 0.15]))],
-            'precision': 32 if r.random() < 0.12 else 64, 'seed': int(r.integers(1 << 30))}
+            'dtype': gen_dtype(r), 'precision': 32 if r.random() < 0.12 else 64, 'seed': int(r.integers(1 << 30)),
+            'layout': H1.gen_layout(r), 'forms': H1.gen_forms(r)}
 
 
 def asp_phase_max(c, shape=None):
@@ -384,8 +448,8 @@ def gen_asp(r, shape):
     return {'shape': list(shape), 'wvl': wvl, 'dx': dx, 'z': zz(), 'z2': zz(),
             'Q': [1, 1, 1, 1.5, 2, 3, 'default'][int(r.integers(7))],
             'samples_form': ['tuple', 'list', 'npint', 'int'][int(r.integers(4))],
-            'dtype': 'complex128' if r.random() < 0.8 else 'float64', 'precision': 32 if r.random() < 0.12 else 64,
-            'seed': int(r.integers(1 << 30)), 'regime': regime}
+            'dtype': gen_dtype(r, (0.55, 0.2, 0.05, 0.05, 0.08, 0.07)), 'precision': 32 if r.random() < 0.12 else 64,
+            'layout': H1.gen_layout(r), 'seed': int(r.integers(1 << 30)), 'regime': regime}
 
 
 # ------------------------------------------------------------------------------------------------
@@ -428,6 +492,16 @@ def _corr(ctx, ft, pr, config):
     # ---- band-complete round trips
     pairs = band_pairs(9, ctx.scale(14, 24))
     bcases = [gen_band(ctx.rng, pairs) for _ in range(ctx.scale(250, 3000))]
+    # near-symmetric block: square input, equal shift components, then exactly one per-axis parameter made different
+    k_ = 0
+    for dtype in ('complex128', 'float64'):
+        for sh in ([0, 0], [1.5, 1.5]):
+            for shp, Qp, smp in (([4, 4], [2, 2], [8, 8]), ([4, 4], [2, 1.5], [8, 6]), ([4, 4], [1.5, 2], [6, 8]),
+                                 ([4, 6], [1.5, 1], [6, 6]), ([6, 6], [1.5, 1.5], [9, 9])):
+                for shv in (sh, [sh[0], sh[1] + 1.25]):
+                    k_ += 1
+                    bcases.append({'shape': shp, 'Q': Qp, 'samples': smp, 'shift': shv, 'dtype': dtype, 'precision': 64,
+                                   'seed': 5000 + k_, 'layout': 'C', 'forms': None})
     for c in bcases:
         m, n = c['shape']
         M, N = c['samples']
@@ -552,11 +626,12 @@ def search(ctx, hints):
         if m + n > 9:
             continue
         for shift in ((0, 0), (1, 0), (1.5, -2.25)):
-            c = {'shape': [m, n], 'Q': [Qy, Qx], 'samples': [M, N], 'shift': list(shift), 'dtype': 'complex128',
-                 'precision': 64, 'seed': 3}
-            ok, detail, _ = pred_band(c)
-            if not ok:
-                return {'item': 'band', 'input': c, 'detail': detail}
+            for dtype in ('complex128', 'float64'):
+                c = {'shape': [m, n], 'Q': [Qy, Qx], 'samples': [M, N], 'shift': list(shift), 'dtype': dtype,
+                     'precision': 64, 'seed': 3}
+                ok, detail, _ = pred_band(c)
+                if not ok:
+                    return {'item': 'band', 'input': c, 'detail': detail}
     for (m, n) in itertools.product(range(1, 7), repeat=2):
         # (wavelength um, dx mm): ordinary, sub-wavelength (dx = lambda/6, lambda/2.5), about one wavelength, very coarse
         for wvl, dx in ((0.6, 0.1), (0.6328, 1e-4), (1.55, 6e-4), (0.5, 5e-4), (1.0, 50.0)):
